@@ -25,26 +25,7 @@ func c01(e *Env) {
 	}
 	g := sp.g
 	// ---- R1 formatter arm "o"
-	fi := e.formatter()
-	ob1 := r.Ob("R1", "formatter[arm o]", "the replacement for placeholder type \"o\" is rooted in FileIP.TempPath, never Path or FifoPath")
-	if len(fi.problems) > 0 {
-		ob1.Unknown("-", strings.Join(fi.problems, "; "))
-	} else if alts := fi.arms["o"]; len(alts) == 0 {
-		ob1.Unknown(core.FuncName(fi.fn), "no arm for placeholder type \"o\" found")
-	} else {
-		for _, alt := range alts {
-			cs := alt.sym.Calls()
-			where := e.P.InstrPos(alt.pred.Instrs[len(alt.pred.Instrs)-1])
-			switch {
-			case cs[fnPath] || cs[fnFifoPath]:
-				ob1.Fail(where, "the command is pointed at "+alt.sym.String()+": an output written there is visible at (or next to) the final path while the command runs")
-			case cs[fnTempPath]:
-				ob1.OK(where, alt.sym.String())
-			default:
-				ob1.Unknown(where, "replacement not rooted in a FileIP path function: "+alt.sym.String())
-			}
-		}
-	}
+	e.fmtArmO("R1")
 	// ---- R2 script template
 	ob2 := r.Ob("R2", "runner:script", "the command runs inside the task's temp dir: script = `cd <Task.TempDir> && <Task.Command> ...` or Cmd.Dir = Task.TempDir")
 	nCmd := 0
@@ -60,7 +41,7 @@ func c01(e *Env) {
 			continue
 		}
 		nCmd++
-		args := e.argSym(n, len(n.Call.Args)-1)
+		args := e.xargSym(n, len(n.Call.Args)-1)
 		if args == nil || args.Op != "list" || len(args.Args) == 0 {
 			ob2.Unknown(g.Where(n), "argument list of exec.Command not recognised: "+fmt.Sprint(args))
 			continue
@@ -198,7 +179,7 @@ func c01(e *Env) {
 	// ---- R7 rename templates
 	ob7 := r.Ob("R7", "finalize:rename-template", "declared outputs are renamed from <temp dir>/<TempPath(x)> to Path(x) of the same x")
 	for _, n := range sp.declRename {
-		src, dst := e.argSym(n, 0), e.argSym(n, 1)
+		src, dst := e.xargSym(n, 0), e.xargSym(n, 1)
 		fl := src.Flat()
 		ok := len(fl) == 3 && fl[1].Op == "lit" && fl[1].Lit == "/" && isCallSym(fl[2], fnTempPath) && isCallSym(dst, fnPath) &&
 			len(fl[2].Args) == 1 && len(dst.Args) == 1 && fl[2].Args[0].String() == dst.Args[0].String() && isTempDirRoot(fl[0])
@@ -243,7 +224,7 @@ func (e *Env) c01WhoMayWrite(sp *spine) {
 		if isRename(n) || n.IsCallTo("os.Link", "os.Symlink") {
 			idx = 1
 		}
-		dst := e.argSym(n, idx)
+		dst := e.xargSym(n, idx)
 		fl := dst.Flat()
 		switch {
 		case declared[n] && isCallSym(dst, fnPath):
